@@ -5,7 +5,9 @@ import MsqProofs.Lemmas.LexScriptPrinted
 import MsqProofs.Props.C03QL
 import MsqProofs.Props.C03D
 /-!
-# C03 / C01 / C02 at TEXT level, part 2: data-change statements (`TDM.FragStmt`) and scripts of them
+# C03 / C01 / C02 at TEXT level, second batch: data-change statements (`TDM.FragStmt`) and scripts of them (part 1 of this file), the larger
+nested fragment `TQ2.FragQ2` / `FragE4` (part 2, with its own header below: `C03.lex_prQ2`, `tquery2_text`, `C01.query_round_trip_text2`,
+`C02.lex_prE4`, `tparse4_text`)
 
 `Props/C03D.lean` proves T-parse for DELETE / UPDATE / INSERT … VALUES / INSERT … query / WITH … on TOKENS (`C03.tstatement`: the rendering
 `TDM.toksStmt d s` parses to `s`).  Here the link to TEXT: the printer's text lexes to exactly that rendering.
